@@ -7,7 +7,7 @@ IMPORTS = ("From Coq Require Import List Ascii String NArith ZArith Bool.\n"
            "From Galaxy.Base Require Import Strs.\nFrom Galaxy.Model Require Import Nets Gc.\n"
            "From Galaxy.Corr Require Import CorrBase C17c.\n")
 
-THEOREMS = ["should_cleanup_exact", "gc_safe", "gc_safe_keeps", "gc_live"]
+THEOREMS = ["should_cleanup_exact", "should_cleanup_never", "gc_safe", "gc_safe_keeps", "gc_live"]
 REFUTED = []
 DEPS = ["Strs", "Nets", "Gc", "GcP", "CorrBase", "C17c", "C17"]
 KNOWN_FINDINGS = []
@@ -28,7 +28,7 @@ def canswer(mode, a, pods):
         if a == "notfound":
             return "(Docker DNotFound)"
         if a in DOCKER_ERR:
-            return "(Docker DError)"
+            return "(Docker DErr)"
         if a == "nostate":
             return "(Docker (DOk None))"
         return "(Docker (DOk (Some %s)))" % cstr(a)
@@ -36,14 +36,14 @@ def canswer(mode, a, pods):
     if kind == "notfound":
         return "(Cri CNotFound)"
     if kind in CRI_ERR:
-        return "(Cri CError)"
+        return "(Cri CErr)"
     if kind == "nil":
         return "(Cri CNil)"
     if kind == "ready":
         return "(Cri CReady)"
     p = pods.get(a["ns"] + "/" + a["name"], {"missing": True})
     if p.get("err"):
-        return "(Cri (CNotReady PError))"
+        return "(Cri (CNotReady PErr))"
     if p.get("missing"):
         return "(Cri (CNotReady PNotFound))"
     m = {"running": "Running", "waiting": "Waiting", "terminated": "Terminated", "none": "NoState"}
@@ -52,7 +52,7 @@ def canswer(mode, a, pods):
 
 def is_err(mode, a, pods):
     t = canswer(mode, a, pods)
-    return t in ("(Docker DError)", "(Cri CError)", "(Cri (CNotReady PError))")
+    return t in ("(Docker DErr)", "(Cri CErr)", "(Cri (CNotReady PErr))")
 
 
 def is_gone(mode, a, pods):
@@ -275,7 +275,7 @@ def run(ctx):
     ctx.assumptions += ["os.Remove of a collected file succeeds; directories are readable",
                         "nothing but the GC changes the directories between rounds",
                         "gc_live: a dead container stays dead (every non-error answer says gone) and its inspect errs at most k times"]
-    ctx.theorems("C17", THEOREMS, REFUTED, deps=DEPS) if not __import__("os").environ.get("C17_NOTHM") else None
+    ctx.theorems("C17", THEOREMS, REFUTED, deps=DEPS)
     cases = []
     corpus = json.load(open(vf.ROOT + "/corpus/C17.json"))
     for c in corpus["cases"]:
